@@ -295,10 +295,29 @@ func cmdCheck(prop, tier string, rest []string) int {
 		byPkg := map[string][]samp{}
 		for _, hs := range sampleSets {
 			for i, sp := range hs.samples {
-				tf := tapeFile{Harness: hs.h.Func, Tier: tn, Property: prop, Kind: "sample", PkgRel: hs.h.PkgRel, Tape: sp.Tape}
+				tf := tapeFile{Harness: hs.h.Func, Tier: tn, Property: prop, Kind: "sample", PkgRel: hs.h.PkgRel, Tape: sp.Tape, FSPlan: sp.FSPlan}
 				b, _ := json.MarshalIndent(tf, "", " ")
 				pth := filepath.Join(dir, fmt.Sprintf("sample-%s-%s-%d.json", hs.h.Func, tier, i))
 				os.WriteFile(pth, b, 0o644)
+				if needsFSReplay(sp.FSPlan) {
+					// a sampled path with injected OS failures or a crash point:
+					// the real process is run under the system-call tracer with the
+					// same failures forced, and must reach the same witnesses
+					rr, okk, why := replayFS(all, hs.h.PkgRel, pth, sp.FSPlan)
+					if !okk {
+						inconclusive = append(inconclusive, fmt.Sprintf("%s: translator validation (traced replay): %s (tape %s)", hs.h.Func, why, pth))
+						continue
+					}
+					ev.replays++
+					if rr.Outcome != "ok" || !sameSet(rr.Reached, sp.Reached) {
+						inconclusive = append(inconclusive, fmt.Sprintf("%s: translator validation (traced replay): native run gave outcome=%s %s reached=%v, engine reached=%v; %s (tape %s)", hs.h.Func, rr.Outcome, rr.Detail, rr.Reached, sp.Reached, why, pth))
+					} else {
+						ev.samplesOK++
+						ev.fsSamplesOK++
+						os.Remove(pth)
+					}
+					continue
+				}
 				byPkg[hs.h.PkgRel] = append(byPkg[hs.h.PkgRel], samp{hs.h, sp.Reached, pth})
 			}
 		}
@@ -554,6 +573,7 @@ type evidence struct {
 	inconclusive  []string
 	unknown       int
 	samplesOK     int
+	fsSamplesOK   int
 	engineReplays int
 }
 
@@ -647,8 +667,9 @@ func (e *evidence) write() error {
 			"bound_cuts":                    cuts,
 			"harnesses":                     e.harnesses,
 			"known_findings_matched":        e.knownMatched,
-			"translator_validation_paths_replayed_ok":   e.samplesOK,
-			"counterexamples_reexecuted_in_interpreter": e.engineReplays,
+			"translator_validation_paths_replayed_ok":              e.samplesOK,
+			"translator_validation_traced_fault_or_crash_paths_ok": e.fsSamplesOK,
+			"counterexamples_reexecuted_in_interpreter":            e.engineReplays,
 			"inconclusive": e.inconclusive,
 			"exhaustive":   false,
 			"explanation":  "bounded symbolic execution of /repo's SSA (regenerated on this run) with z3; every assertion query is the negated property under the path condition",
